@@ -1017,6 +1017,8 @@ func refCanonical(s []byte, k int) []string {
 }
 
 func sequtilRound4_12(c *Ctx) {
+	sequtilWarmUp()
+	canonNearPalindromes(c)
 	canonReusedIterator(c)
 	canonLongBufferReused(c)
 	rcHugeInvalid(c)
@@ -1267,6 +1269,20 @@ func canonLongStops(c *Ctx) {
 }
 
 func sequtilRound4_13(c *Ctx) {
+	sequtilWarmUp()
+	// after every other function of the package has run: each of the 256 byte values inside an otherwise valid sequence
+	for _, pos := range []int{0, 1, 3, 4, 6} {
+		bad := ""
+		for v := 0; v < 256 && bad == ""; v++ {
+			s := []byte("ACGTACG")
+			s[pos] = byte(v)
+			valid := strings.IndexByte("ACGTacgt", byte(v)) >= 0
+			if got := safe(func() string { return hx(sequtil.DNATo2Bit(nil, s)) }); valid == (got == "PANIC") {
+				bad = fmt.Sprintf("DNATo2Bit(%q) (byte %#x at position %d, after the other functions of the package were used): valid base=%v, panics=%v", s, v, pos, valid, got == "PANIC")
+			}
+		}
+		c.add(Case{Kind: "to2bit-every-byte", Nontrivial: true, Oracle: bad, Note: fmt.Sprintf("DNATo2Bit with every byte value at position %d of a 7-base sequence", pos)})
+	}
 	// every 4-byte string over bases and foreign bytes, alone and after a valid group: DNATo2Bit panics
 	// exactly when a foreign byte is present (whatever the NUMBER of foreign bytes in a group)
 	al := []byte{'A', 'c', 'G', 't', 'N', 'n', 0xff, 0x00}
@@ -1401,6 +1417,8 @@ func sequtilRound4_13(c *Ctx) {
 }
 
 func sequtilRound4_14(c *Ctx) {
+	sequtilWarmUp()
+	translateLongBytes(c)
 	// every byte value at every position of a 12-base sequence, through Translate and the reading frames
 	base := []byte("ACGacgTTTtga")
 	for v := 0; v < 256; v++ {
@@ -2509,6 +2527,7 @@ func canonRound7(c *Ctx) {
 // mashRound7: a sequence of more than 2^22 k-mers sketched whole and as two overlapping pieces holding the same
 // k-mers (the sketch depends only on the k-mer content)
 func mashRound7(c *Ctx) {
+	mashRound11(c)
 	n, k := 1<<22+3000, 21
 	seq := c.bytesFrom([]byte("ACGT"), n)
 	m := n/2 + 17
@@ -3077,4 +3096,139 @@ func (c *Ctx) veryLongLineInputs(name string) [][]byte {
 		}
 	}
 	return out
+}
+
+// mashRound11: sequences a few bases (1 … k) longer than 2^16, 2^18 (thorough 2^20): a sketch large enough for every
+// k-mer, whole against two overlapping pieces cut at an odd place -- block-wise processing that forgets the
+// overlap at its last block loses the final k-mers.
+func mashRound11(c *Ctx) {
+	k := 21
+	bases := []int{1 << 16, 1 << 18}
+	if c.thor {
+		bases = append(bases, 1<<20)
+	}
+	for _, base := range bases {
+		for _, r := range []int{1, 2, k / 2, k - 1, k} {
+			n := base + r
+			seq := c.bytesFrom([]byte("ACGT"), n)
+			m := n/3 + 5
+			size := n + 10
+			var whole, parts []uint64
+			st := safe(func() string {
+				whole = mash.Sequences(size, k, seq).View()
+				parts = mash.Sequences(size, k, seq[:m+k-1], seq[m:]).View()
+				return ""
+			})
+			oracle := ""
+			if st == "PANIC" {
+				oracle = fmt.Sprintf("mash.Sequences panicked on %d bases", n)
+			} else if len(whole) != len(parts) {
+				oracle = fmt.Sprintf("the sketch (large enough for every k-mer) of a %d-base sequence (2^%d + %d) holds %d values, the sketch of two overlapping pieces with the same %d-mers holds %d", n, bitsLen(base), r, len(whole), k, len(parts))
+			} else {
+				for i := range whole {
+					if whole[i] != parts[i] {
+						oracle = fmt.Sprintf("the sketch of a %d-base sequence differs from the sketch of two overlapping pieces with the same %d-mers (value %d)", n, k, i)
+						break
+					}
+				}
+			}
+			c.add(Case{Kind: "mash-block-residue", Nontrivial: true, Oracle: oracle, Note: fmt.Sprintf("mash.Sequences(%d, %d) of %d bases, whole and in two overlapping pieces", size, k, n)})
+		}
+	}
+}
+
+func bitsLen(x int) int {
+	n := 0
+	for x > 1 {
+		x >>= 1
+		n++
+	}
+	return n
+}
+
+// canonNearPalindromes: windows of the form X + m + revcomp(X) (odd k) and X + m1 m2 + revcomp(X) (even k), k up to
+// 129: a window and its reverse complement then differ ONLY in the middle, so a comparison that looks at half of
+// the window, or at machine words of it, decides on bytes that are equal.
+func canonNearPalindromes(c *Ctx) {
+	comp := func(b byte) byte { return "TGCAtgcaNn"[strings.IndexByte("ACGTacgtNn", b)] }
+	for _, k := range []int{3, 5, 7, 9, 15, 17, 31, 32, 33, 34, 35, 41, 63, 64, 65, 66, 127, 129} {
+		for _, mid := range []string{"A", "C", "G", "T", "N", "AC", "GT", "CA", "TG", "AT", "GC"} {
+			if (k-len(mid))%2 != 0 {
+				continue
+			}
+			h := (k - len(mid)) / 2
+			x := c.bytesFrom([]byte("ACGT"), h)
+			w := append(append([]byte(nil), x...), mid...)
+			for i := h - 1; i >= 0; i-- {
+				w = append(w, comp(x[i]))
+			}
+			s := append(append(c.bytesFrom([]byte("ACGT"), 2), w...), c.bytesFrom([]byte("ACGT"), 2)...)
+			var got []string
+			st := safe(func() string {
+				for y := range sequtil.CanonicalSubsequences(s, k) {
+					got = append(got, hx(y))
+				}
+				return ""
+			})
+			want := refCanonical(s, k)
+			oracle := ""
+			if st == "PANIC" {
+				oracle = "CanonicalSubsequences panicked"
+			} else if strings.Join(got, ",") != strings.Join(want, ",") {
+				oracle = fmt.Sprintf("CanonicalSubsequences with k=%d on a window that differs from its reverse complement only in its middle (%q): an item is not the lexicographic minimum of a window and its reverse complement", k, mid)
+			}
+			c.add(Case{Op: fmt.Sprintf("su.canon %d 0 %s", k, hx(s)), Impl: strings.Join(got, ","), Kind: "canon-near-palindrome", Nontrivial: true, Oracle: oracle,
+				Note: fmt.Sprintf("CanonicalSubsequences(%q, %d)", s, k)})
+		}
+	}
+}
+
+// sequtilWarmUp: every other exported function of the package is called first (valid and invalid input), so that
+// anything one function leaves behind in package-level state (a lazily built table, a patched lookup table)
+// is in place when the function under test runs.
+func sequtilWarmUp() {
+	for _, s := range [][]byte{nil, []byte("ACGTacgtN"), []byte("ATGAAATGAUUUxx"), []byte("nNnN"), {0, 0xff, 'u', 'U'}} {
+		safe(func() string { sequtil.Translate(nil, s); return "" })
+		safe(func() string { sequtil.TranslateReadingFrames(s); return "" })
+		safe(func() string { sequtil.ReverseComplement(nil, s); return "" })
+		safe(func() string { _ = sequtil.ReverseComplementString(string(s)); return "" })
+		safe(func() string { sequtil.DNATo2Bit(nil, s); return "" })
+		safe(func() string { sequtil.DNAFrom2Bit(nil, s); return "" })
+		safe(func() string {
+			for range sequtil.CanonicalSubsequences(s, 3) {
+			}
+			return ""
+		})
+		for _, b := range s {
+			safe(func() string { sequtil.AminoName(b); sequtil.Ntoi(b); sequtil.Iton(int(b) % 4); return "" })
+		}
+	}
+}
+
+// translateLongBytes: sequences of 96, 300 and 3000 valid bases with ONE byte replaced by each of the 256 byte values,
+// at the first, a middle and the last position, each call made twice: Translate panics exactly when the byte is not
+// one of aAcCgGtT, the second time as the first (an answer remembered from an earlier call must be the same answer).
+func translateLongBytes(c *Ctx) {
+	for _, n := range []int{3, 96, 300, 3000} {
+		base := c.bytesFrom([]byte("ACGTacgt"), n)
+		want0 := safe(func() string { return hx(sequtil.Translate(nil, base)) })
+		for _, pos := range []int{0, 1, 2, n / 2, n - 3, n - 1} {
+			bad := ""
+			for v := 0; v < 256 && bad == ""; v++ {
+				s := append([]byte(nil), base...)
+				s[pos] = byte(v)
+				valid := strings.IndexByte("ACGTacgt", byte(v)) >= 0
+				for rep := 0; rep < 2 && bad == ""; rep++ {
+					got := safe(func() string { return hx(sequtil.Translate(nil, s)) })
+					if valid == (got == "PANIC") {
+						bad = fmt.Sprintf("Translate of %d bases with byte %#x at position %d (call %d): valid base=%v, panics=%v", n, v, pos, rep+1, valid, got == "PANIC")
+					}
+				}
+			}
+			if again := safe(func() string { return hx(sequtil.Translate(nil, base)) }); bad == "" && again != want0 {
+				bad = fmt.Sprintf("Translate of the same %d valid bases gives a different result after calls that panicked", n)
+			}
+			c.add(Case{Kind: "translate-every-byte", Nontrivial: true, Oracle: bad, Note: fmt.Sprintf("Translate on %d bases, every byte value at position %d, each call twice", n, pos)})
+		}
+	}
 }
